@@ -21,6 +21,8 @@ META = {
         "== {pseudo->initial} + one (source,target) per external transition, each edge label carries its "
         "events and guard names, internal transitions appear inside their state's label and not as edges, "
         "double border <=> final, highlighted nodes == {current state}; both readings must agree. "
+        ""
+        "one DotGraphMachine object kept over the instance's life / fresh per picture / sm._graph(). "
         "distinct_nontrivial = distinct machine shapes (states, edge multiset, finals, internal, guards) "
         "with an internal transition, a final state or parallel edges."
     ),
